@@ -1404,6 +1404,15 @@ package query
 //@ func (ViewMap).Dispose
 //@   trusted assumed: closes the cached view's handler and drops the entry
 //@   modifies * except F:query.ReferenceScope. F:query.Transaction. F:query.View. F:query.FileInfo.
+// C19: a file named as an inline table that the transaction already holds in its cache: the cached copy has an open file
+// only when it was loaded for update; a copy loaded for reading has none (the handle is closed after the read), and the
+// file is opened again (it used to call File() on the missing handle: Fatal Error)
+//@ func loadInlineObjectFromFile
+//@   property C19 C13
+//@   safety
+//@   abstract *
+//@   requires scope != nil && scope.Tx != nil && scope.Tx.viewLoadingMutex != nil && !mutexHeld[scope.Tx.viewLoadingMutex] && scope.Tx.Flags != nil
+//@   modifies *
 //@ func loadObjectFromFile
 //@   property C13
 //@   abstract *
